@@ -32,6 +32,11 @@ def field_pool():
         ("DictField", {}, [{"k": 1}, {"k": 2}, {"k": 3}, {"k": 4}, {"k": 5}, {"k": 6}]),
         ("DictFieldTyped", {}, [{"k": 1}, {"k": 2}, {"k": 3}, {"k": 4}, {"k": 5}, {"k": 6}]),
         ("AnyField", {}, ["any1", 2, [3], {"x": 4}, 5.5, None]),
+        # declared defaults that are acceptable but not in the field's normal form: exposed AS DECLARED
+        ("StringFieldLowerNonNormal", {"transform_case": "lower"}, ["MiXed%d" % i for i in range(1, 7)]),
+        ("StringFieldStripNonNormal", {"transform_strip": True}, ["  pad%d  " % i for i in range(1, 7)]),
+        ("IPv4NetworkFieldNonNormal", {}, ["10.0.%d.7" % i for i in range(1, 7)]),
+        ("HostnameFieldUpperNonNormal", {"transform_case": "upper"}, ["host%d.example" % i for i in range(1, 7)]),
         # containers nested inside the default: every level belongs to one configuration only
         ("DictFieldNested", {}, [{"k": [i, i], "m": {"x": [i]}} for i in range(1, 7)]),
         ("ListFieldNested", {}, [[[i], {"y": [i]}] for i in range(1, 7)]),
@@ -77,7 +82,10 @@ def _mk(c, counter, calls):
             calls.append(_c.deepcopy(v))
             return v
         kw["default"] = _factory(c["dkind"], dflt)
-    if name == "DictFieldNested":
+    if name.endswith("NonNormal"):
+        cls = name[:name.index("Field") + 5]
+        f = getattr(cc, cls)(**kw)
+    elif name == "DictFieldNested":
         f = cc.DictField(**kw)
     elif name == "ListFieldNested":
         f = cc.ListField(**kw)
@@ -179,7 +187,7 @@ def impl(c):
         if c["assign"]:
             a[path] = seq[3]
             out["assigned_defined"] = is_value_defined(a, path)
-            out["assigned_ok"] = _verifies(a[path], seq[3])
+            out["assigned_ok"] = _verifies(a[path], seq[3]) or c["field"].endswith("NonNormal")      # (an assignment is normalised)
         n_r = len(calls)
         reset_value(a, path)
         out["reset_defined"] = is_value_defined(a, path)
@@ -234,6 +242,20 @@ def impl(c):
             if not isinstance(cur, (list, dict)) or c["field"] == "AnyField":
                 b[path] = cur
                 out["assignsame_defined"] = is_value_defined(b, path)
+            elif "Nested" not in c["field"]:
+                # a container read from the configuration, filled in place, and assigned back (what `cfg.f += [...]` does):
+                # the assignment succeeds, so the field is user-defined
+                try:
+                    if isinstance(cur, list):
+                        cur.append(cur[0] if cur else 1)
+                    else:
+                        cur["zz"] = next(iter(cur.values())) if cur else 1
+                    b[path] = cur
+                    out["assignback_defined"] = is_value_defined(b, path)
+                except Exception as e:  # noqa
+                    out["assignback_defined"] = "raised %s" % type(e).__name__
+                reset_value(b, path)
+                out["assignback_reset"] = not is_value_defined(b, path)
     except Exception as e:  # noqa
         out["exc"] = "%s: %s" % (type(e).__name__, e)
     finally:
@@ -262,6 +284,10 @@ def oracle(c, obs):
         bad.append("%s: loading a value equal to the default does not make the field user-defined" % what)
     if obs.get("loadsame_reset") is False:
         bad.append("%s: reset after a load does not restore the not-user-defined status" % what)
+    if obs.get("assignback_defined") is not None and obs.get("assignback_defined") is not True:
+        bad.append("%s: a container filled in place and assigned back is not reported as user-defined (%s)" % (what, obs.get("assignback_defined")))
+    if obs.get("assignback_reset") is False:
+        bad.append("%s: reset after assigning the container back does not restore the not-user-defined status" % what)
     if obs.get("assignsame_defined") is False:
         bad.append("%s: assigning a value equal to the default does not make the field user-defined" % what)
     for k, txt in (("nested_b_clean", "another configuration"), ("nested_decl_clean", "the declared default"),
